@@ -218,7 +218,16 @@ func ParseFunction(parameterList, body string) (*ast.FunctionLiteral, error) {
 		return nil, err
 	}
 
-	return program.Body[0].(*ast.ExpressionStatement).Expression.(*ast.FunctionLiteral), nil
+	// The text must be ONE function expression: a body such as "} in {" closes the wrapper
+	// early and makes the program something else (15.3.2.1 step 9: SyntaxError).
+	if len(program.Body) == 1 {
+		if statement, ok := program.Body[0].(*ast.ExpressionStatement); ok {
+			if function, ok := statement.Expression.(*ast.FunctionLiteral); ok {
+				return function, nil
+			}
+		}
+	}
+	return nil, fmt.Errorf("Unexpected token }")
 }
 
 // Scan reads a single token from the source at the current offset, increments the offset and
